@@ -45,6 +45,38 @@ def run(ctx):
                         "returned values decode to coordinates; bigWig float32 holds these integers exactly",
                         "a window that only touches a chromosome end may be kept or omitted ('either')",
                         "motif names are compared after stripping trailing whitespace"]
+    extras(ctx)
+
+
+def extras(ctx):
+    """Beyond the listed property: read_vcf against Vcf_Trace.  A rejected event is an EXTRA-FINDING and never changes the exit
+    status of C16."""
+    import copy
+    out = ctx.run_impl("x16", [dict(id=k, seed=ctx.seed * 17 + k, n=40 if ctx.quick else 600) for k in range(4)], nproc=4,
+                       timeout_s=1500, env=dict(VERIF_CASE_TIMEOUT=900))
+    events = []
+    for k in range(4):
+        if out[k].get("st") in ("crashed", "timeout"):
+            print("EXTRA-FINDING: (not part of C16) read_vcf driver %s" % out[k]["st"], flush=True); continue
+        events += out[k]["events"]
+    for i, e in enumerate(events):
+        e["id"] = i + 1; e.pop("kind", None)
+    ok = [e for e in events if e["st"] == "ok" and e["rows"]]
+    neg = None
+    if ok:
+        neg = copy.deepcopy(ok[0]); neg["id"] = -1; neg["rows"] = neg["rows"][1:] + neg["rows"][:1] if len(neg["rows"]) > 1 else []
+    bad = ctx.validate_trace("Vcf_Trace", "Vcf_Trace.cfg", ([neg] if neg else []) + events, tag="-vcf")
+    if neg:
+        ctx.cov["traces_validated_against_impl"] -= 1
+        ctx.negative_control("rows out of file order must be rejected by Vcf_Trace", any(b[0] == -1 for b in bad))
+    classes = {}
+    for (i, c) in bad:
+        if i > 0:
+            classes.setdefault(c, []).append(i)
+    for c, ids in sorted(classes.items()):
+        print("EXTRA-FINDING: (not part of C16) read_vcf: %s (%d of %d files)" % (c, len(ids), len(events)), flush=True)
+    ctx.lane("extras", events=len(events), rejected=sum(len(v) for v in classes.values()), functions=["read_vcf"],
+             classes={c: len(v) for c, v in classes.items()})
 
 
 def replay(ctx, v):
